@@ -33,6 +33,8 @@ Orphan(s, c)      == C("Orphan", "", c, s, "", 0, "", 0)
 RegDrop(k)        == C("RegDrop", k, "", "", "", 0, "", 0)
 RegOver(k)        == C("RegOver", k, "", "", "", 0, "", 0)
 Tick              == C("Tick", "", "", "", "", 0, "", 0)
+OrphanMany(s, c, n) == C("OrphanMany", "", c, s, "", n, "", 0)
+ThreePart(k, s)   == <<Create("u1", k, s), UpPart("u1", 1, "a"), UpPart("u1", 2, "b"), UpPart("u1", 3, "c"), Complete("u1")>>
 TwoPart(k, s)     == <<Create("u1", k, s), UpPart("u1", 1, "a"), UpPart("u1", 2, "b"), Complete("u1")>>
 
 Other == IF Cardinality(Stores) > 1 THEN CHOOSE s \in Stores : s # D ELSE D
@@ -72,7 +74,19 @@ Scenarios == <<
    w |-> <<PutBegin("k1", "a", D), PutCommit>>, gc |-> TRUE, rd |-> ""],
   \* 11 object whose manifest repeats one deduplicated part: copies and deletes against the collector
   [pre |-> <<Create("u1", "k1", D), UpPart("u1", 1, "a"), UpPart("u1", 2, "a"), Complete("u1"), Tick>>,
-   w |-> <<Copy("k1", "k2", D), Del("k1"), Put("k1", "a", D), Del("k2")>>, gc |-> FALSE, rd |-> ""]
+   w |-> <<Copy("k1", "k2", D), Del("k1"), Put("k1", "a", D), Del("k2")>>, gc |-> FALSE, rd |-> ""],
+  \* 12 reader of a three-part object against delete (a part vanishes while an earlier one is streaming)
+  [pre |-> ThreePart("k1", D) \o <<Tick>>,
+   w |-> <<Del("k1")>>, gc |-> FALSE, rd |-> "k1"],
+  \* 13 reader of a three-part object against overwrite
+  [pre |-> ThreePart("k1", D) \o <<Tick>>,
+   w |-> <<Put("k1", "b", D)>>, gc |-> FALSE, rd |-> "k1"],
+  \* 14 a store holding very many aged unreferenced parts: one pass reclaims all of them
+  [pre |-> <<Put("k1", "a", D), OrphanMany(D, "b", MaxId - 8), Tick>>,
+   w |-> <<>>, gc |-> TRUE, rd |-> ""],
+  \* 15 reader of a three-part object whose parts are only removed by the collector
+  [pre |-> ThreePart("k1", D) \o <<RegDrop("k1"), Tick>>,
+   w |-> <<Del("k1")>>, gc |-> TRUE, rd |-> "k1"]
 >>
 Sc == Scenarios[scn]
 
